@@ -252,6 +252,14 @@ def szCmdC (l : Limits) : Ctor → List Int → Option SzR
       let hit := min matched.toNat a
       matchRegexp (if flag.toNat / 2 % 2 = 1 then a - hit else hit) flag l.maxArray
   | .reg_assoc => ar1 fun m => andThen (strOf l m) fun p => regAssoc p l.maxArray
+  | .unique_mapping =>
+    -- iota (n) grouped by v % groups (groups ≤ 0: every element its own group)
+    ar2 fun n groups => andThen (allocateArray n l.maxArray) fun a =>
+      uniqueMapping a (if groups ≤ 0 then a else groups.toNat) l.maxMapping
+  | .save_nested_map => ar1 fun d => saveVariable (valNestedMap (d.toNat - 1)) l.maxString
+  -- the nesting depth of a value save_variable accepted (the text must fit as well)
+  | .save_depth => ar1 fun d => andThen (saveVariable (valNested (d.toNat - 1)) l.maxString) fun _ => .ok (max d.toNat 1)
+  | .save_depth_map => ar1 fun d => andThen (saveVariable (valNestedMap (d.toNat - 1)) l.maxString) fun _ => .ok (max d.toNat 1)
   | .sprintf_pad =>
     -- sprintf ("%*s", w, s): padded to the field width; the pad goes through the same bounded buffer
     ar2 fun w n => andThen (strOf l n) fun p =>
